@@ -12,6 +12,14 @@ for l in out.splitlines():
     sid = m.group(1)
     p = '/verif/seeded/%s/meta.json' % sid
     meta = json.load(open(p))
+    if "(PATCH)" in m.group(2):
+        # the patch no longer applies to the current /repo (a later fix touched the same lines):
+        # what was recorded when it was stored stands
+        meta['applies_to_current_tree'] = False
+        json.dump(meta, open(p, 'w'), indent=1)
+        print('does not apply any more:', sid)
+        continue
+    meta['applies_to_current_tree'] = True
     viol = sorted(t for t in m.group(2).split() if re.fullmatch(r'C\d+', t))
     meta['detected_by_checks'] = viol
     meta['own_property_check_detects'] = meta['breaks_property'] in viol
